@@ -22,7 +22,7 @@ import (
 func init() {
 	fw.Register(&fw.Property{
 		ID: "C13", Level: "exploration",
-		Rule: "each case: a mixed history (with governance rotations of the enterprise signer set) interrupted by 2-3 probe points; at each probe point, for every state-changing message type of the four modules (raise, decide, whitelist, WRKChain/BEACON register/record/purchase, stream create/claim/top-up/rate/cancel, MsgUpdateParams x4) x every account as SIGNING KEY x {itself, the entitled party, another account, the gov authority} as the ADDRESS NAMED in the message - directly and wrapped in MsgExec without a grant - the tx is delivered with zero fee and the raw diff of all stores is taken. Rules: named != signing key => every store byte-identical; custom-module state changed => the signer is the entitled party per the pre-state (current enterprise signer, registered owner, stream sender/receiver, never for parameter updates); rejected => custom-module stores byte-identical. Governance-delivered probes: after each probe point one REAL proposal per message (submit, vote, tally) carries decide / whitelist / record / purchase / top-up / rate / cancel / claim messages that name the gov module account as the acting party (it is entitled to parameter updates only and owns nothing in these histories): the EndBlock that executes them must leave the four custom-module stores byte-identical. distinct = (message type, signer relation, outcome)",
+		Rule: "each case: a mixed history (with governance rotations of the enterprise signer set) interrupted by 2-3 probe points; at each probe point, for every state-changing message type of the four modules (raise, decide, whitelist add and remove - also of the named account's own entry, WRKChain/BEACON register/record/purchase, stream create/claim/top-up/rate/cancel, MsgUpdateParams x4) x every account as SIGNING KEY x {itself, the entitled party, another account, the gov authority} as the ADDRESS NAMED in the message - directly and wrapped in MsgExec without a grant - the tx is delivered with zero fee and the raw diff of all stores is taken. Rules: named != signing key => every store byte-identical; custom-module state changed => the signer is the entitled party per the pre-state (current enterprise signer, registered owner, stream sender/receiver, never for parameter updates); rejected => custom-module stores byte-identical. Governance-delivered probes: after each probe point one REAL proposal per message (submit, vote, tally) carries decide / whitelist / record / purchase / top-up / rate / cancel / claim messages that name the gov module account as the acting party (it is entitled to parameter updates only and owns nothing in these histories): the EndBlock that executes them must leave the four custom-module stores byte-identical. distinct = (message type, signer relation, outcome)",
 		Cases: func(tier string) int {
 			if tier == "thorough" {
 				return 2000
